@@ -502,3 +502,54 @@ def check_select_nonempty(ctx, rule: str, select_fn=lambda fi: True):
             ctx.ob(rule, construct(fi, f"select({short(a0, 30)}, ...) runs only when the condition list is not empty"), guarded, loc(fi, c),
                    "" if guarded else "numpy.select raises ValueError (not AssertionError) on an empty condition list, e.g. when nothing has to be grouped")
     return n
+
+
+SENTINEL_EXCEPTIONS = {
+    ("QualitativeDiscretizer._prepare_data", "StringDiscretizer", "str_nan"):
+        "the converter only records string forms; a stray default '__NAN__' leader is never observed afterwards and ends in the default group (checked with custom sentinels during the build)",
+    ("ChainedDiscretizer._prepare_data", "StringDiscretizer", "str_nan"): "same as QualitativeDiscretizer._prepare_data",
+    ("QualitativeDiscretizer.fit", "BaseDiscretizer", "str_nan"): "inner re-application of already fitted orders with dropna=False: missing values stay NaN, no sentinel is written",
+    ("QualitativeDiscretizer.fit", "BaseDiscretizer", "str_default"): "same: the inner BaseDiscretizer only replays given orders",
+    ("MulticlassCarver.fit", "BinaryCarver", "str_nan"): "forwarded through **self.kwargs (checked by C12 R-forward-all)",
+    ("MulticlassCarver.fit", "BinaryCarver", "str_default"): "forwarded through **self.kwargs (checked by C12 R-forward-all)",
+}
+
+
+def check_forward_sentinels(ctx, rule: str):
+    """Every discretizer built inside another discretizer / carver must be given the outer object's
+    str_nan / str_default whenever its constructor takes them: fit-time code writes the sentinel of the
+    inner object, transform-time code of the outer object looks for its own."""
+    repo = ctx.repo
+    classes = {c.name: c for c in repo.subclasses("BaseDiscretizer")}
+
+    def accepts(cls, name: str) -> bool:
+        init = repo.lookup_method(cls, "__init__")
+        if init is None:
+            return False
+        if name in init.params:
+            return True
+        return any(isinstance(c, ast.Call) and call_name(c) == "get" and c.args and const_value(c.args[0]) == name and "kwargs" in unparse(c.func.value) for c in ast.walk(init.node))
+
+    n = 0
+    for fi in repo.all_functions():
+        if fi.cls is None or fi.cls.name not in classes:
+            continue
+        for c in walk_no_nested(fi.node):
+            if not (isinstance(c, ast.Call) and isinstance(c.func, ast.Name) and c.func.id in classes):
+                continue
+            inner = classes[c.func.id]
+            for sent in ("str_nan", "str_default"):
+                if not accepts(inner, sent) or not accepts(fi.cls, sent):
+                    continue
+                n += 1
+                v = kwarg(c, sent)
+                key = (fi.qualname, inner.name, sent)
+                cons = construct(fi, f"{inner.name}(...) receives {sent}=self.{sent}")
+                if v is not None and unparse(v) == f"self.{sent}":
+                    ctx.ob(rule, cons, True, loc(fi, c))
+                elif key in SENTINEL_EXCEPTIONS:
+                    ctx.ob(rule, cons, True, loc(fi, c), "exception: " + SENTINEL_EXCEPTIONS[key])
+                else:
+                    ctx.ob(rule, cons, False, loc(fi, c),
+                           f"the inner {inner.name} falls back to its default {sent}: with a custom {sent} the fitted orders use another sentinel than the one transform looks for")
+    return n
